@@ -466,3 +466,47 @@ Proof.
     + rewrite crash_app_lt by assumption.
       apply (classified_inside_event ev evs e lf s cp W I Hlt).
 Qed.
+
+(* ---------------- serving: what was handed to callbacks is in the restarted store ---------------- *)
+
+Lemma written_app : forall a b, written (a ++ b) = written a ++ written b.
+Proof. intros; unfold written; apply flat_map_app. Qed.
+Lemma served_app : forall a b, served (a ++ b) = served a ++ served b.
+Proof. intros; unfold served; apply flat_map_app. Qed.
+
+(* with the write first, every prefix of the events of one lifetime has served ⊆ written *)
+Lemma cb_prefix_served_written : forall chained bs last k b,
+  In b (served (firstn k (cb_attempts true chained last bs))) ->
+  In b (written (firstn k (cb_attempts true chained last bs))).
+Proof.
+  intros chained bs; induction bs as [|x bs IH]; intros last k b H; simpl in *.
+  - rewrite firstn_nil in H. contradiction.
+  - destruct (accepts chained last x).
+    + unfold cb_put_events in *; simpl in *.
+      destruct (b_round x =? 0).
+      * destruct k as [|k]; simpl in *; [contradiction|]. right. apply (IH x k b H).
+      * destruct k as [|[|k]]; simpl in *; [contradiction | contradiction |].
+        destruct H as [E|H]; [left; exact E | right; apply (IH x k b H)].
+    + unfold cb_put_events in *; simpl in *. apply (IH last k b H).
+Qed.
+
+Lemma beacon_eqb_refl : forall b, beacon_eqb b b = true.
+Proof. intros; unfold beacon_eqb; rewrite !Z.eqb_refl; reflexivity. Qed.
+
+Theorem served_persisted_write_first : forall chained c0 last bs k,
+  served_persisted c0 (firstn k (cb_attempts true chained last bs)) = true.
+Proof.
+  intros. unfold served_persisted. apply forallb_forall. intros b H.
+  apply existsb_exists. exists b. split; [|apply beacon_eqb_refl].
+  apply in_or_app. right. apply cb_prefix_served_written, H.
+Qed.
+
+(* the database writes of the callback store's lifetime are exactly the append store's transactions *)
+Lemma cb_written_is_attempt_ops : forall chained bs last,
+  written (cb_attempts true chained last bs) = beacons_of (attempt_ops chained last bs).
+Proof.
+  intros chained bs; induction bs as [|x bs IH]; intros last; simpl; [reflexivity|].
+  destruct (accepts chained last x); simpl.
+  - unfold cb_put_events; simpl. destruct (b_round x =? 0); simpl; rewrite IH; reflexivity.
+  - apply IH.
+Qed.
